@@ -47,6 +47,9 @@ Fixpoint set_nth {A} (l : list A) (n : nat) (v : A) : list A :=
 
 (* helpers.go calcSizeFromValue: 0 -> 1; otherwise the bit length of the value read as uint64
    (a negative int has its top bit set: 64) *)
+(* two's complement wrap-around of a 64-bit int *)
+Definition wrap64 (z : Z) : Z := (z + 2 ^ 63) mod 2 ^ 64 - 2 ^ 63.
+
 Definition calc_size (v : Z) : Z :=
   if v =? 0 then 1 else if v <? 0 then 64 else Z.log2 v + 1.
 
@@ -628,8 +631,10 @@ Definition step_mux_shift (left : bool) (s : state) (u x : nat) (a : Z) : state 
 Definition step (s : state) (o : op) : state * result :=
   match o with
   | ONewMsg n =>
+    (* NewMessage cannot refuse: the layout gets sizeByte * 8 bits computed in a 64-bit int (it wraps for
+       |sizeByte| > MaxInt64 / 8: finding "ctor") *)
     let m := nmsg s in
-    (set_nmsg (set_glsize (set_gbytes s (upd (gbytes s) m n)) (upd (glsize s) m (n * 8))) (S m), ROk)
+    (set_nmsg (set_glsize (set_gbytes s (upd (gbytes s) m n)) (upd (glsize s) m (wrap64 (n * 8)))) (S m), ROk)
   | ONewStd n =>
     if n <? 0 then (s, RErr Negative) else if n =? 0 then (s, RErr IsZero)
     else (alloc_sig s (KStd n), ROk)
@@ -643,6 +648,7 @@ Definition step (s : state) (o : op) : state * result :=
   | ONewMux c g =>
     if c <? 0 then (s, RErr Negative) else if c =? 0 then (s, RErr IsZero)
     else if g <? 0 then (s, RErr Negative) else if g =? 0 then (s, RErr IsZero)
+    else if 2 ^ 63 - 65 <? g then (s, RErr TooBig)      (* group size + selector bits must be representable *)
     else let u := nsig s in
          let s1 := alloc_sig s (KMux c g) in
          (set_ugroups s1 (upd (ugroups s1) u (repeat [] (Z.to_nat c))), ROk)
